@@ -1,5 +1,5 @@
-\* the reader as implemented today (last byte stripped unconditionally); TLC is EXPECTED to find an input
-\* for which the published records differ from Records(input) -- a lead, reproduced on the real binary
+\* the reader as it was before the fix (last byte stripped unconditionally); TLC is EXPECTED to find an input
+\* for which the published records differ from Records(input) -- the lead that was reproduced on the real binary
 SPECIFICATION Spec
 CONSTANTS
   Sym = {"x", "y"}
